@@ -8,6 +8,8 @@ not identifiable; caller's graph and query sets unchanged; both public entry poi
 
 from __future__ import annotations
 
+from functools import lru_cache
+
 from ..graphs import G, disjoint_pairs, enum_L, enum_O, identifiable_hedge, identifiable_tp
 from ..runner import Res
 from ..y0util import V, snapshot, to_y0
@@ -15,6 +17,7 @@ from ..y0util import V, snapshot, to_y0
 TITLE = "ID verdicts are total, complete and side-effect free"
 
 
+@lru_cache(maxsize=None)
 def _universe(tier):
     if tier == "quick":
         o4 = list(enum_O(4))
